@@ -10,7 +10,7 @@ SPEC = {
     "id": "C01",
     "props_module": "NDB.Props.C01",
     "corr_modules": ["NDB.Corr.Crash"],
-    "theorems": ["C01_acked_survive", "C01_ckpt_backed"],
+    "theorems": ["C01_acked_survive", "C01_ckpt_backed", "C01_logged_replayed"],
     "allowed_axioms": [],
     "harness_pkg": "hx_crash",
     "harness_bin": "c01",
